@@ -32,6 +32,7 @@ pub enum Error {
         register_name: String,
     },
     RuntimeMismatchedWidths(),
+    DivideByZero(),
     UndeclaredWireAssigned { name: String, span: Span, close_name: Option<String> },
     UndeclaredWireRead { name: String, expr: SpannedExpr, close_name: Option<String> },
     NonConstantWireRead(String, SpannedExpr),
@@ -309,6 +310,9 @@ impl Error {
             },
             Error::RuntimeMismatchedWidths() => {
                 error(output, &format!("Unexpected wire width disagreement."))?;
+            },
+            Error::DivideByZero() => {
+                error(output, "Division by zero.")?;
             },
             Error::UndeclaredWireAssigned { ref name, ref span, ref close_name } => {
                 // TODO: suggestions for wire meant?
@@ -614,6 +618,7 @@ impl error::Error for Error {
             Error::MismatchedRegisterDefaultWidths {..} => "mismatched width in default value for register",
             Error::DuplicateRegister {..} => "duplicate register in register bank",
             Error::RuntimeMismatchedWidths() => "mismatched width detected while evaluating expression",
+            Error::DivideByZero() => "division by zero while evaluating expression",
             Error::UndeclaredWireAssigned {..} => "undeclared wire assigned",
             Error::UndeclaredWireRead {..} => "undeclared wire read",
             Error::NonConstantWireRead(_,_) => "non-constant wire read",
